@@ -513,7 +513,12 @@ pub fn run_cli_bytes(bin: &str, dir: &str, n: usize, rendered: &Rendered, source
                 truncated = true;
                 break;
             }
-            if let Ok(v) = serde_json::from_str::<Value>(&line) {
+            if let Ok(mut v) = serde_json::from_str::<Value>(&line) {
+                // (representation only: the specification compares byte strings; TLA+ has no string -> bytes operator)
+                if v["ev"] == "diagpos" {
+                    let b: Vec<u8> = v["text"].as_str().unwrap_or("").as_bytes().to_vec();
+                    v["textb"] = json!(b);
+                }
                 evs.push(v);
             }
         }
